@@ -221,6 +221,48 @@ def primed_trees(seed):
 
 
 # ------------------------------------------------------------------------------------------------
+# regular expressions that match a proper PREFIX of some fixture values but not the whole value.
+# The documentation does not say whether =~ anchors at the end, so these are NOT compared with the
+# reference; they are judged only by the unambiguous clause "the source returned by
+# select_expression evaluates to the same index list" (evaluated with the real `re` module, as a
+# user would run it) and by the determinism of the emitted source.
+# ------------------------------------------------------------------------------------------------
+PREFIX_REGEX = {
+    "name": ["C", "C[1-4]", "C1", "C.", "H", "N", "O", "O5", "H5", "C3"],
+    "type": ["C", "N"],
+    "resname": ["H", "A", "A.", "C", "L", "HO", "[AG]"],
+    "segment_id": ["S", "SO"],
+}
+
+
+def prefix_regex_depth1():
+    """-> list of strings: every alias x pattern x single / double quoted (bare when the pattern is a word)"""
+    out = []
+    for c, pats in PREFIX_REGEX.items():
+        for a in R.STR_KW[c]:
+            for rx in pats:
+                for st in ("single", "double") + (("bare",) if rx.isalnum() else ()):
+                    out.append("%s =~ %s" % (a, q(rx, st)))
+    return out
+
+
+def prefix_regex_trees(seed):
+    """the same conditions under not / and / or in every connective spelling"""
+    names = {}
+    for tab in (R.BOOL_KW, R.STR_KW):
+        for c, als in tab.items():
+            names[c] = als[seed % len(als)]
+    xs = leaves([("%s~%s" % (c, rx), "%s =~ '%s'" % (names[c], rx))
+                 for c, rx in (("name", "C"), ("name", "C[1-4]"), ("name", "H5"), ("resname", "H"), ("resname", "A."),
+                               ("type", "N"))])
+    partners = leaves([("protein", names["protein"]), ("name=CA", "name CA"), ("index<60", "index < 60")])
+    out = []
+    for sp in R.NOT_SP:
+        out += [("not", sp, x) for x in xs]
+    return out + bins(xs, partners) + bins(partners, xs) + bins(xs, xs)
+
+
+# ------------------------------------------------------------------------------------------------
 # representative leaves for depth >= 2:  (abstract id, template); {kw} is replaced by an alias
 # ------------------------------------------------------------------------------------------------
 _REPS2 = [
